@@ -59,13 +59,17 @@ def levels(tier, plan):
 
 def default_plan(tier, scale=1.0):
     mids = ["tap", "branch_cpu", "branch_npu"]
+    big = [((1, 32, 32, 16), "int8")]
+    perf_ops = ["conv3x3", "dw3x3", "conv1x1", "maxpool2x2", "conv3x3s2", "add_const"]
     if tier == "quick":
         return [("G1xC8", nets.STARTS_Q, nets.SIGMA_Q, 1, "c8"),
                 ("G2xC1", nets.STARTS_Q[:2], nets.SIGMA_Q, 2, "c2"),
-                ("fork3xC2", fork_histories(nets.STARTS_Q[:2], nets.SIGMA_C + ["cpu_neg"], mids, nets.SIGMA_C + ["cpu_neg"]), "c2")]
+                ("fork3xC2", fork_histories(nets.STARTS_Q[:2], nets.SIGMA_C + ["cpu_neg"], mids, nets.SIGMA_C + ["cpu_neg"]), "c2"),
+                ("perfcascade3xCP", histories(big, perf_ops, 3), "cP")]
     return [("G1xC24", nets.STARTS_T, nets.SIGMA_T, 1, "c24"),
             ("G2xC8", nets.STARTS_Q, nets.SIGMA_Q, 2, "c8"),
             ("chain3xC4", nets.STARTS_Q[:2], nets.SIGMA_C, 3, "c4"),
+            ("perfcascade3xCP", histories(big + [((1, 48, 48, 8), "int8")], nets.SIGMA_C, 3), "cP"),
             ("fork3xC8", fork_histories(nets.STARTS_Q, nets.SIGMA_C + ["cpu_neg", "concat", "split"], mids, nets.SIGMA_C + ["cpu_neg", "concat", "reshape"]), "c8")]
 
 
